@@ -1,5 +1,1000 @@
-//! C18 — stub (being built).
+//! C18 — introspection is consistent and matches the schema actually served.
+//!
+//! Monitors (see DESIGN.md §2 "C18"):
+//!  I1  the JSON answered to the standard introspection query is a
+//!      self-consistent schema description (`client::rebuild`);
+//!  I2  the client schema rebuilt from it equals the SOURCE the schema was
+//!      built from and the model read from `schema.sdl()`; `__type(name:)`
+//!      agrees with `__schema.types`; the legacy query (no `includeDeprecated`)
+//!      shows the same schema minus the deprecated elements;
+//!  I3  under every combination of the request-data flags the static family V1
+//!      shows exactly the visible part: no hidden name anywhere in the raw
+//!      JSON, every visible reachable element present, I1 on the visible part.
+
+use std::collections::BTreeSet;
+
+use async_graphql::{Request, Response};
+use serde_json::{Value as J, json};
+use vh_core::{Rng, Run, catch, rng};
+
+use crate::client::{self, Rebuilt};
+use crate::tsgen::{self, GenOpts};
+use crate::im::*;
+use crate::query;
+use crate::sdlm;
+use crate::vis::{self, Flags};
+use crate::witness;
+
+/// One thing the monitor found wrong. `class` is a stable tag (counted in the
+/// evidence, used for shrinking); `text` is the exact observation.
+#[derive(Clone, Debug)]
+pub struct Problem {
+    pub class: &'static str,
+    pub text: String,
+}
+
+fn pb(class: &'static str, text: String) -> Problem {
+    Problem { class, text }
+}
+
+/// A schema under test: how to execute a request and its exported SDL.
+pub struct Subject<'a> {
+    pub exec: &'a dyn Fn(Request) -> Response,
+    pub sdl: Option<String>,
+}
+
+/// What the source says introspection must show.
+pub struct Want<'a> {
+    pub model: &'a IModel,
+    /// types that may or may not be listed (visible but unreachable)
+    pub optional: Option<&'a IModel>,
+    /// the full source the SDL must describe (None: skip the SDL leg)
+    pub sdl_source: Option<&'a IModel>,
+    /// compare description texts on the SDL leg
+    pub sdl_descriptions: bool,
+    pub flags: Option<Flags>,
+    /// type names that must answer `__type(name:) = null`
+    pub must_be_unknown: Vec<String>,
+    /// elements (`T.f`, `T.f(a)`, input field `T.x`) the source leaves open: taken as introspection shows them
+    pub optional_paths: Option<&'a BTreeSet<String>>,
+}
+
+#[derive(Default)]
+pub struct Stats {
+    pub refs_checked: u64,
+    pub types_compared: u64,
+    pub by_name_compared: u64,
+    pub by_name_null: u64,
+    pub legacy_compared: u64,
+    pub sdl_compared: u64,
+    pub sdl_unparseable: u64,
+    pub interface_interfaces_null: u64,
+    pub truncated_refs: u64,
+    pub max_chain: usize,
+    pub json_bytes: u64,
+    pub requests: u64,
+    pub subjects_not_compared_truncated: u64,
+}
+
+fn run_query(s: &Subject, text: String, flags: Option<Flags>, st: &mut Stats) -> Result<J, Problem> {
+    let mut req = Request::new(text);
+    if let Some(f) = flags {
+        req = req.data(f);
+    }
+    st.requests += 1;
+    let resp = match catch(|| (s.exec)(req)) {
+        Ok(r) => r,
+        Err(p) => return Err(pb("panic", format!("executing the introspection query panicked: {p}"))),
+    };
+    if !resp.errors.is_empty() {
+        let e: Vec<String> = resp.errors.iter().map(|e| e.message.clone()).collect();
+        return Err(pb("introspection_error", format!("the introspection query answered errors: {e:?}")));
+    }
+    match serde_json::to_value(&resp.data) {
+        Ok(j) => Ok(j),
+        Err(e) => Err(pb("introspection_error", format!("response data is not JSON: {e}"))),
+    }
+}
+
+/// Remove what `includeDeprecated: false` must remove from a standard answer
+/// and the keys the legacy query does not ask for.
+fn strip_for_legacy(schema: &J) -> J {
+    fn input_values(j: &J) -> J {
+        match j.as_array() {
+            None => j.clone(),
+            Some(a) => J::Array(
+                a.iter()
+                    .filter(|x| x["isDeprecated"] != J::Bool(true))
+                    .map(|x| {
+                        let mut o = x.as_object().cloned().unwrap_or_default();
+                        o.remove("isDeprecated");
+                        o.remove("deprecationReason");
+                        J::Object(o)
+                    })
+                    .collect(),
+            ),
+        }
+    }
+    fn ty(t: &J) -> J {
+        let mut o = t.as_object().cloned().unwrap_or_default();
+        o.remove("specifiedByURL");
+        o.remove("isOneOf");
+        if let Some(fs) = t["fields"].as_array() {
+            o.insert(
+                "fields".into(),
+                J::Array(
+                    fs.iter()
+                        .filter(|f| f["isDeprecated"] != J::Bool(true))
+                        .map(|f| {
+                            let mut fo = f.as_object().cloned().unwrap_or_default();
+                            fo.insert("args".into(), input_values(&f["args"]));
+                            J::Object(fo)
+                        })
+                        .collect(),
+                ),
+            );
+        }
+        if t["inputFields"].is_array() {
+            o.insert("inputFields".into(), input_values(&t["inputFields"]));
+        }
+        if let Some(vs) = t["enumValues"].as_array() {
+            o.insert("enumValues".into(), J::Array(vs.iter().filter(|v| v["isDeprecated"] != J::Bool(true)).cloned().collect()));
+        }
+        J::Object(o)
+    }
+    let mut o = serde_json::Map::new();
+    for k in ["queryType", "mutationType", "subscriptionType"] {
+        o.insert(k.into(), if schema[k].is_null() { J::Null } else { json!({"name": schema[k]["name"]}) });
+    }
+    o.insert("types".into(), J::Array(schema["types"].as_array().map(|a| a.iter().map(ty).collect()).unwrap_or_default()));
+    o.insert(
+        "directives".into(),
+        J::Array(
+            schema["directives"]
+                .as_array()
+                .map(|a| {
+                    a.iter()
+                        .map(|d| {
+                            json!({"name": d["name"], "description": d["description"], "locations": d["locations"],
+                                   "args": input_values(&d["args"])})
+                        })
+                        .collect()
+                })
+                .unwrap_or_default(),
+        ),
+    );
+    J::Object(o)
+}
+
+/// First place where two JSON values differ (for messages).
+fn json_diff(a: &J, b: &J, path: String) -> Option<String> {
+    match (a, b) {
+        (J::Object(x), J::Object(y)) => {
+            for (k, v) in x {
+                match y.get(k) {
+                    None => return Some(format!("{path}.{k}: present on the left only")),
+                    Some(w) => {
+                        if let Some(d) = json_diff(v, w, format!("{path}.{k}")) {
+                            return Some(d);
+                        }
+                    }
+                }
+            }
+            for k in y.keys() {
+                if !x.contains_key(k) {
+                    return Some(format!("{path}.{k}: present on the right only"));
+                }
+            }
+            None
+        }
+        (J::Array(x), J::Array(y)) => {
+            if x.len() != y.len() {
+                let nx: Vec<&J> = x.iter().map(|e| &e["name"]).collect();
+                let ny: Vec<&J> = y.iter().map(|e| &e["name"]).collect();
+                return Some(format!("{path}: {} entries {nx:?} vs {} entries {ny:?}", x.len(), y.len()));
+            }
+            for (i, (v, w)) in x.iter().zip(y).enumerate() {
+                let label = v["name"].as_str().map(|s| s.to_string()).unwrap_or(i.to_string());
+                if let Some(d) = json_diff(v, w, format!("{path}[{label}]")) {
+                    return Some(d);
+                }
+            }
+            None
+        }
+        _ => {
+            if a == b {
+                None
+            } else {
+                Some(format!(
+                    "{path}: {} vs {}",
+                    vh_core::run::truncate(&a.to_string(), 100),
+                    vh_core::run::truncate(&b.to_string(), 100)
+                ))
+            }
+        }
+    }
+}
+
+/// Identifier-like runs of the text that contain `zz` in any letter case.
+fn zz_words(text: &str) -> BTreeSet<String> {
+    let mut out = BTreeSet::new();
+    let mut cur = String::new();
+    for c in text.chars().chain(std::iter::once(' ')) {
+        if c.is_ascii_alphanumeric() || c == '_' {
+            cur.push(c);
+        } else {
+            if cur.to_ascii_lowercase().contains("zz") {
+                out.insert(cur.clone());
+            }
+            cur.clear();
+        }
+    }
+    out
+}
+
+/// Copy the element at `path` from `shown` into `expected` (if `shown` has it).
+fn adopt_optional(expected: &mut IModel, shown: &IModel, path: &str) {
+    let Some((tn, rest)) = path.split_once('.') else { return };
+    let (fname, aname) = match rest.split_once('(') {
+        Some((f, a)) => (f, Some(a.trim_end_matches(')'))),
+        None => (rest, None),
+    };
+    let (Some(et), Some(st)) = (expected.types.get_mut(tn), shown.types.get(tn)) else { return };
+    match (&mut et.kind, &st.kind) {
+        (IKind::Object { fields: ef, .. }, IKind::Object { fields: sf, .. })
+        | (IKind::Interface { fields: ef, .. }, IKind::Interface { fields: sf, .. }) => {
+            let Some(sfd) = sf.iter().find(|f| f.name == fname) else { return };
+            match aname {
+                None => {
+                    if !ef.iter().any(|f| f.name == fname) {
+                        ef.push(sfd.clone());
+                    }
+                }
+                Some(a) => {
+                    if let (Some(efd), Some(sa)) = (ef.iter_mut().find(|f| f.name == fname), sfd.args.iter().find(|x| x.name == a)) {
+                        if !efd.args.iter().any(|x| x.name == a) {
+                            efd.args.push(sa.clone());
+                        }
+                    }
+                }
+            }
+        }
+        (IKind::Input { fields: ef, .. }, IKind::Input { fields: sf, .. }) => {
+            if let Some(sa) = sf.iter().find(|x| x.name == fname) {
+                if !ef.iter().any(|x| x.name == fname) {
+                    ef.push(sa.clone());
+                }
+            }
+        }
+        _ => {}
+    }
+}
+
+/// What `verify` found: the problems, the rebuilt client model and the raw
+/// text of the standard answer (for the name scan of the caller).
+pub struct Verified {
+    pub problems: Vec<Problem>,
+    pub rebuilt: Option<Rebuilt>,
+    pub raw: String,
+}
+
+/// Run every monitor on one subject.
+pub fn verify(s: &Subject, want: &Want, st: &mut Stats) -> Verified {
+    let mut problems: Vec<Problem> = vec![];
+    // ---- standard introspection query
+    let data = match run_query(s, query::standard(), want.flags, st) {
+        Ok(d) => d,
+        Err(p) => return Verified { problems: vec![p], rebuilt: None, raw: String::new() },
+    };
+    let raw = data.to_string();
+    st.json_bytes += raw.len() as u64;
+    let schema = &data["__schema"];
+    if !schema.is_object() {
+        let p = pb("introspection_error", format!("data.__schema is {}", vh_core::run::truncate(&schema.to_string(), 100)));
+        return Verified { problems: vec![p], rebuilt: None, raw };
+    }
+    // ---- I1
+    let rb = client::rebuild(schema, false);
+    st.refs_checked += rb.refs_checked;
+    st.interface_interfaces_null += rb.interface_interfaces_null;
+    st.truncated_refs += rb.truncated_refs;
+    st.max_chain = st.max_chain.max(rb.max_chain);
+    for e in &rb.errors {
+        let class = if e.contains(" lists interface ") {
+            "i1_transitive_interface"
+        } else if e.contains("does not list") {
+            "i1_dangling_reference"
+        } else if e.contains("possibleTypes lists") {
+            "i1_possible_types"
+        } else if e.contains("must be null for this kind") || e.contains("instead of a list") {
+            "i1_kind_fields"
+        } else {
+            "i1_other"
+        };
+        problems.push(pb(class, format!("I1 {e}")));
+    }
+    // ---- I2: against the source
+    let mut expected = want.model.clone();
+    if let Some(opt) = want.optional {
+        for (n, t) in &opt.types {
+            if rb.model.types.contains_key(n) {
+                expected.add(t.clone());
+            }
+        }
+    }
+    if let Some(paths) = want.optional_paths {
+        for p in paths {
+            adopt_optional(&mut expected, &rb.model, p);
+        }
+    }
+    // a reference deeper than the query's ofType nesting cannot be rebuilt: nothing to compare then
+    let d = if rb.truncated_refs > 0 {
+        st.subjects_not_compared_truncated += 1;
+        vec![]
+    } else {
+        st.types_compared += expected.types.len() as u64;
+        diff(&expected, "source", &rb.model, "introspection", &DiffOpts::default())
+    };
+    for e in d {
+        let class = if e.contains("implemented interfaces") {
+            "i2_interfaces"
+        } else if e.contains("default value") {
+            "i2_default_value"
+        } else if e.contains("description") {
+            "i2_description"
+        } else if e.contains("deprecated") {
+            "i2_deprecation"
+        } else if e.contains("missing in introspection") {
+            "i2_missing_in_introspection"
+        } else if e.contains("missing in source") {
+            "i2_extra_in_introspection"
+        } else {
+            "i2_other"
+        };
+        problems.push(pb(class, format!("I2 {e}")));
+    }
+    // ---- __type(name:) for every listed type, and for names that must be unknown
+    let mut names: Vec<String> =
+        schema["types"].as_array().map(|a| a.iter().filter_map(|t| t["name"].as_str().map(|s| s.to_string())).collect()).unwrap_or_default();
+    let listed = names.len();
+    names.push("NoSuchTypeAnywhere".to_string());
+    names.extend(want.must_be_unknown.iter().cloned());
+    if let Some(opt) = want.optional {
+        // an optional type that is not listed must be unknown to __type(name:) as well
+        names.extend(opt.types.keys().filter(|n| !rb.model.types.contains_key(*n)).cloned());
+    }
+    match run_query(s, query::by_name(&names), want.flags, st) {
+        Err(p) => problems.push(p),
+        Ok(d) => {
+            for (i, n) in names.iter().enumerate() {
+                let got = &d[format!("t{i}")];
+                if i < listed {
+                    let entry = client::entry(schema, n).cloned().unwrap_or(J::Null);
+                    st.by_name_compared += 1;
+                    if let Some(x) = json_diff(&entry, got, String::new()) {
+                        problems.push(pb(
+                            "i2_type_by_name",
+                            format!("I2 __type(name: {n:?}) differs from the __schema.types entry at {x}"),
+                        ));
+                    }
+                } else {
+                    st.by_name_null += 1;
+                    if !got.is_null() {
+                        problems.push(pb(
+                            "i3_type_by_name_hidden",
+                            format!(
+                                "__type(name: {n:?}) answers {} although __schema.types does not list it",
+                                vh_core::run::truncate(&got.to_string(), 120)
+                            ),
+                        ));
+                    }
+                }
+            }
+        }
+    }
+    // ---- legacy query: same schema minus deprecated elements
+    match run_query(s, query::legacy(), want.flags, st) {
+        Err(p) => problems.push(p),
+        Ok(d) => {
+            st.legacy_compared += 1;
+            let want_legacy = strip_for_legacy(schema);
+            if let Some(x) = json_diff(&want_legacy, &d["__schema"], "__schema".into()) {
+                problems.push(pb(
+                    "i2_legacy_query",
+                    format!("I2 legacy query (includeDeprecated omitted) vs standard answer minus deprecated elements: {x}"),
+                ));
+            }
+        }
+    }
+    // ---- SDL leg
+    if let (Some(src), Some(sdl)) = (want.sdl_source, &s.sdl) {
+        match sdlm::from_sdl(sdl) {
+            Err(_) => st.sdl_unparseable += 1,
+            Ok(sm) => {
+                st.sdl_compared += 1;
+                let o = DiffOpts { descriptions: want.sdl_descriptions, ..Default::default() };
+                for e in diff(src, "source", &sm, "SDL", &o) {
+                    let class = if e.contains("implemented interfaces") { "sdl_interfaces" } else { "sdl_other" };
+                    problems.push(pb(class, format!("I2 {e}")));
+                }
+            }
+        }
+    }
+    Verified { problems, rebuilt: Some(rb), raw }
+}
+
+fn flush_stats(run: &Run, st: &Stats) {
+    run.count("type_references_resolved", st.refs_checked);
+    run.count("types_compared_with_source", st.types_compared);
+    run.count("type_by_name_entries_compared", st.by_name_compared);
+    run.count("type_by_name_unknown_checked", st.by_name_null);
+    run.count("legacy_queries_compared", st.legacy_compared);
+    run.count("sdl_models_compared", st.sdl_compared);
+    run.count("sdl_unparseable_skipped", st.sdl_unparseable);
+    run.count("interface_entries_with_null_interfaces", st.interface_interfaces_null);
+    run.count("type_references_truncated_by_query_depth", st.truncated_refs);
+    run.count("introspection_json_bytes", st.json_bytes);
+    run.count("requests_executed", st.requests);
+    run.count("subjects_not_compared_because_truncated", st.subjects_not_compared_truncated);
+    run.seen("deepest_type_reference_levels_per_shard", &st.max_chain.to_string());
+    run.evals(st.requests);
+}
+
+pub fn classes(ps: &[Problem]) -> Vec<&'static str> {
+    let mut c: Vec<&'static str> = ps.iter().map(|p| p.class).collect();
+    c.sort();
+    c.dedup();
+    c
+}
+
+pub fn texts(ps: &[Problem]) -> Vec<String> {
+    ps.iter().map(|p| p.text.clone()).collect()
+}
+
+// -------------------------------------------------------------------- static V1
+
+/// Check a static schema whose elements carry visibility predicates under one context.
+pub fn check_static(
+    exec: &dyn Fn(Request) -> Response,
+    sdl: Option<String>,
+    vm: &vis::Vm,
+    f: Flags,
+    st: &mut Stats,
+) -> (Vec<Problem>, J) {
+    let exp = vm.restrict(f);
+    let sub = Subject { exec, sdl };
+    let must_be_unknown: Vec<String> = vm
+        .full
+        .types
+        .keys()
+        .filter(|n| !exp.model.types.contains_key(*n) && !exp.optional.types.contains_key(*n))
+        .cloned()
+        .collect();
+    let want = Want {
+        model: &exp.model,
+        optional: Some(&exp.optional),
+        sdl_source: Some(&vm.full),
+        sdl_descriptions: true,
+        flags: Some(f),
+        must_be_unknown,
+        optional_paths: Some(&exp.optional_paths),
+    };
+    let v = verify(&sub, &want, st);
+    let mut problems = v.problems;
+    let mut seen_words = BTreeSet::new();
+    if v.rebuilt.is_some() {
+        seen_words = zz_words(&v.raw);
+        for w in &seen_words {
+            if !exp.visible_sentinels.contains(w) {
+                let how = if exp.hidden.contains(w) { "hidden in this context" } else { "not a visible element of this context" };
+                problems.push(pb("i3_hidden_name_in_json", format!("I3 the response contains {w:?}, which is {how}")));
+            }
+        }
+        for w in &exp.visible_sentinels {
+            // only names of reachable elements must show
+            if !seen_words.contains(w) && model_mentions(&exp.model, w) {
+                problems.push(pb("i3_visible_name_missing", format!("I3 the response lacks the visible element {w:?}")));
+            }
+        }
+    }
+    let info = json!({
+        "flags": f.label(),
+        "hidden_names": exp.hidden.len(),
+        "visible_sentinels_seen": seen_words.len(),
+        "types_expected": exp.model.types.len(),
+        "types_optional": exp.optional.types.keys().collect::<Vec<_>>(),
+    });
+    (problems, info)
+}
+
+pub fn sdl_opts() -> async_graphql::SDLExportOptions {
+    async_graphql::SDLExportOptions::new().include_specified_by()
+}
+
+pub fn check_v1_context(schema: &vis::V1Schema, vm: &vis::Vm, f: Flags, st: &mut Stats) -> (Vec<Problem>, J) {
+    let exec = |r: Request| vh_core::vsched::block_on(schema.execute(r));
+    let sdl = if f == Flags::from_bits(15) { Some(schema.sdl_with_options(sdl_opts())) } else { None };
+    check_static(&exec, sdl, vm, f, st)
+}
+
+fn model_mentions(m: &IModel, name: &str) -> bool {
+    m.types.values().any(|t| {
+        t.name == name
+            || match &t.kind {
+                IKind::Object { fields, .. } | IKind::Interface { fields, .. } => {
+                    fields.iter().any(|f| f.name == name || f.args.iter().any(|a| a.name == name))
+                }
+                IKind::Enum { values } => values.iter().any(|v| v.name == name),
+                IKind::Input { fields, .. } => fields.iter().any(|a| a.name == name),
+                _ => false,
+            }
+    })
+}
+
+fn static_part(run: &Run) {
+    let vm = vis::hand_model();
+    if let Err(e) = vm.check_naming() {
+        run.inconclusive(&format!("harness error: V1 hand model breaks its naming rule: {e}"));
+        return;
+    }
+    let schema = match catch(vis::schema) {
+        Ok(s) => s,
+        Err(p) => {
+            run.violation("C18-V1|build-panic", &format!("building the static family V1 panicked: {p}"), json!({"flavour": "static-V1"}));
+            return;
+        }
+    };
+    let mut st = Stats::default();
+    for bits in 0u8..16 {
+        let f = Flags::from_bits(bits);
+        let exp = vm.restrict(f);
+        let mut d = vis::dangling(&exp.model);
+        d.extend(exp.optional_paths.iter().map(|p| format!("{p} has a hidden type")));
+        if !d.is_empty() {
+            run.inconclusive(&format!("harness error: V1 hand model dangles under {}: {d:?}", f.label()));
+            return;
+        }
+        let (problems, info) = check_v1_context(&schema, &vm, f, &mut st);
+        run.count("static_contexts_checked", 1);
+        run.count("hidden_names_scanned_for", exp.hidden.len() as u64);
+        run.seen("visibility_context", &f.label());
+        run.nontrivial(rng::mix(&[18, 1000 + bits as u64]));
+        if bits == 0 || bits == 5 || bits == 15 {
+            run.sample(json!({"flavour": "static-V1", "context": info, "problems": texts(&problems)}));
+        }
+        if !problems.is_empty() {
+            for c in classes(&problems) {
+                run.count(&format!("problem_{c}"), 1);
+            }
+            run.violation(
+                &format!("C18-V1|{}|{}", f.label(), problems[0].text),
+                &format!("static family V1 under [{}]: {} problem(s): {}", f.label(), problems.len(), texts(&problems).join(" || ")),
+                json!({"flavour": "static-V1", "flags_bits": bits, "flags": f.label(), "problems": texts(&problems)}),
+            );
+        }
+    }
+    flush_stats(run, &st);
+    run.exhaustive(true);
+    run.extra(
+        "exhaustive_over",
+        json!("the 16 combinations of the four request-data flags of the static family V1; dynamic schemas are sampled"),
+    );
+}
+
+// ---------------------------------------------------------------------- dynamic
+
+pub fn check_dynamic(m: &IModel, hostile: bool, st: &mut Stats) -> Result<Vec<Problem>, String> {
+    let schema = match catch(|| tsgen::builder(m).finish()) {
+        Ok(Ok(s)) => s,
+        Ok(Err(e)) => return Err(format!("build error: {e}")),
+        Err(p) => return Ok(vec![pb("panic", format!("building a valid dynamic schema panicked: {p}"))]),
+    };
+    let exec = |r: Request| vh_core::vsched::block_on(schema.execute(r));
+    let sdl = if hostile {
+        None
+    } else {
+        catch(|| schema.sdl_with_options(async_graphql::SDLExportOptions::new().include_specified_by())).ok()
+    };
+    let sub = Subject { exec: &exec, sdl };
+    // what nothing refers to may be listed or not
+    let reach = tsgen::reachable(m);
+    let mut expected = IModel { query: m.query.clone(), mutation: m.mutation.clone(), subscription: m.subscription.clone(), ..Default::default() };
+    let mut optional = IModel::default();
+    for (n, t) in &m.types {
+        if reach.contains(n) || is_builtin_scalar(n) {
+            expected.add(t.clone());
+        } else {
+            optional.add(t.clone());
+        }
+    }
+    let want = Want {
+        model: &expected,
+        optional: Some(&optional),
+        sdl_source: if hostile { None } else { Some(m) },
+        sdl_descriptions: true,
+        flags: None,
+        must_be_unknown: vec![],
+        optional_paths: None,
+    };
+    Ok(verify(&sub, &want, st).problems)
+}
+
+fn dynamic_part(run: &Run) {
+    let total = run.scale(1_500, 120_000);
+    let shards: u64 = if run.is_thorough() { 16 } else { 8 };
+    let inherit = run.feature("dynamic_interface_inheritance");
+    let later_pass = run.feature("interface_listed_by_later_pass");
+    std::thread::scope(|sc| {
+        for shard in 0..shards {
+            sc.spawn(move || {
+                let mut r = Rng::new(rng::mix(&[run.seed, 18, shard]));
+                let mut st = Stats::default();
+                let mut i = shard;
+                while i < total {
+                    i += shards;
+                    if run.elapsed_s() > 420.0 {
+                        run.count("dynamic_cases_skipped_by_time_budget", 1);
+                        continue;
+                    }
+                    let hostile = r.chance(1, 3);
+                    let o = GenOpts {
+                        hostile_text: hostile,
+                        interface_inheritance: inherit,
+                        subscription: true,
+                        later_pass_interfaces: later_pass,
+                        orphans: true,
+                    };
+                    let m = tsgen::gen_model(&mut r, &o);
+                    let h = rng::hash_str(&m.to_json().to_string());
+                    let problems = match check_dynamic(&m, hostile, &mut st) {
+                        Ok(p) => p,
+                        Err(e) => {
+                            run.count("dynamic_schema_build_failed", 1);
+                            run.sample_upto(8, json!({"dynamic_schema_build_failed": e, "model": m.to_json()}));
+                            continue;
+                        }
+                    };
+                    run.count("dynamic_schemas_checked", 1);
+                    if hostile {
+                        run.count("dynamic_schemas_with_hostile_text", 1);
+                    }
+                    let feats = m.features();
+                    for f in &feats {
+                        run.seen("schema_feature", f);
+                    }
+                    if feats.len() >= 6 {
+                        run.nontrivial(h);
+                    }
+                    run.sample_upto(
+                        6,
+                        json!({"flavour": "dynamic", "hostile_text": hostile, "features": feats,
+                               "types": m.types.len(), "sdl_excerpt": vh_core::run::truncate(&m_sdl(&m), 400),
+                               "problems": texts(&problems)}),
+                    );
+                    if !problems.is_empty() {
+                        for c in classes(&problems) {
+                            run.count(&format!("problem_{c}"), 1);
+                        }
+                        // shrinking re-executes the case many times: only for the first few
+                        let (small, sp) = if SHRUNK.fetch_add(1, std::sync::atomic::Ordering::Relaxed) < 6 {
+                            shrink(&m, hostile, &problems)
+                        } else {
+                            (m.clone(), problems.clone())
+                        };
+                        run.violation(
+                            &format!("C18-dyn:{h:016x}"),
+                            &format!(
+                                "dynamic schema: {} problem(s) [{}]; reduced to {} types: {}",
+                                problems.len(),
+                                classes(&problems).join(","),
+                                small.types.len() - 5,
+                                texts(&sp).join(" || ")
+                            ),
+                            json!({"flavour": "dynamic", "hostile_text": hostile, "model": small.to_json(),
+                                   "problems": texts(&sp), "original_model": m.to_json(), "original_problems": texts(&problems)}),
+                        );
+                    }
+                }
+                flush_stats(run, &st);
+            });
+        }
+    });
+}
+
+static SHRUNK: std::sync::atomic::AtomicU64 = std::sync::atomic::AtomicU64::new(0);
+
+fn m_sdl(m: &IModel) -> String {
+    // compact rendering for samples only
+    let mut o = String::new();
+    for t in m.types.values() {
+        if is_builtin_scalar(&t.name) {
+            continue;
+        }
+        match &t.kind {
+            IKind::Scalar { .. } => o.push_str(&format!("scalar {} ", t.name)),
+            IKind::Enum { values } => {
+                o.push_str(&format!("enum {} {{{}}} ", t.name, values.iter().map(|v| v.name.as_str()).collect::<Vec<_>>().join(" ")))
+            }
+            IKind::Union { members } => o.push_str(&format!("union {} = {} ", t.name, members.join("|"))),
+            IKind::Object { fields, implements } | IKind::Interface { fields, implements } => {
+                let kw = if matches!(t.kind, IKind::Object { .. }) { "type" } else { "interface" };
+                let imp = if implements.is_empty() { String::new() } else { format!(" implements {}", implements.join("&")) };
+                o.push_str(&format!(
+                    "{kw} {}{imp} {{{}}} ",
+                    t.name,
+                    fields.iter().map(|f| format!("{}:{}", f.name, f.ty)).collect::<Vec<_>>().join(" ")
+                ));
+            }
+            IKind::Input { fields, .. } => o.push_str(&format!(
+                "input {} {{{}}} ",
+                t.name,
+                fields.iter().map(|f| format!("{}:{}", f.name, f.ty)).collect::<Vec<_>>().join(" ")
+            )),
+        }
+    }
+    o
+}
+
+/// Greedy reduction of a failing dynamic model: drop types, fields, arguments,
+/// texts while the same problem class is still reported.
+fn shrink(m: &IModel, hostile: bool, problems: &[Problem]) -> (IModel, Vec<Problem>) {
+    let target = problems[0].class;
+    let still = |c: &IModel| -> Option<Vec<Problem>> {
+        if !vis::dangling(c).is_empty() {
+            return None;
+        }
+        // keep everything reachable, otherwise "missing in introspection" would be our own doing
+        let reach = tsgen::reachable(c);
+        if c.types.keys().any(|n| !is_builtin_scalar(n) && !reach.contains(n) && !n.starts_with("Orphan")) {
+            return None;
+        }
+        let mut st = Stats::default();
+        match check_dynamic(c, hostile, &mut st) {
+            Ok(p) if p.iter().any(|x| x.class == target) => Some(p),
+            _ => None,
+        }
+    };
+    let mut cur = m.clone();
+    let mut cur_p = problems.to_vec();
+    let mut budget = 400;
+    let mut progress = true;
+    while progress && budget > 0 {
+        progress = false;
+        // drop whole types
+        let names: Vec<String> = cur.types.keys().filter(|n| !is_builtin_scalar(n) && **n != cur.query).cloned().collect();
+        for n in names {
+            if budget == 0 {
+                break;
+            }
+            let mut c = cur.clone();
+            c.types.remove(&n);
+            if c.mutation.as_deref() == Some(&n) {
+                c.mutation = None;
+            }
+            if c.subscription.as_deref() == Some(&n) {
+                c.subscription = None;
+            }
+            // remove every mention
+            for t in c.types.values_mut() {
+                match &mut t.kind {
+                    IKind::Object { fields, implements } | IKind::Interface { fields, implements } => {
+                        implements.retain(|i| i != &n);
+                        fields.retain(|f| f.ty.name() != n);
+                        for f in fields.iter_mut() {
+                            f.args.retain(|a| a.ty.name() != n);
+                        }
+                    }
+                    IKind::Union { members } => members.retain(|x| x != &n),
+                    IKind::Input { fields, .. } => fields.retain(|a| a.ty.name() != n),
+                    _ => {}
+                }
+            }
+            if c.types.values().any(|t| match &t.kind {
+                IKind::Object { fields, .. } | IKind::Interface { fields, .. } => fields.is_empty(),
+                IKind::Union { members } => members.is_empty(),
+                IKind::Input { fields, .. } => fields.is_empty(),
+                _ => false,
+            }) {
+                continue;
+            }
+            budget -= 1;
+            if let Some(p) = still(&c) {
+                cur = c;
+                cur_p = p;
+                progress = true;
+            }
+        }
+        // drop single fields / args / decorations
+        let names: Vec<String> = cur.types.keys().cloned().collect();
+        for n in names {
+            let nf = match &cur.types[&n].kind {
+                IKind::Object { fields, .. } | IKind::Interface { fields, .. } => fields.len(),
+                IKind::Input { fields, .. } => fields.len(),
+                IKind::Enum { values } => values.len(),
+                _ => 0,
+            };
+            for k in (0..nf).rev() {
+                if budget == 0 {
+                    break;
+                }
+                let mut c = cur.clone();
+                let mut removed_name = String::new();
+                match &mut c.types.get_mut(&n).unwrap().kind {
+                    IKind::Object { fields, .. } | IKind::Interface { fields, .. } => {
+                        if fields.len() > 1 {
+                            removed_name = fields.remove(k).name;
+                        }
+                    }
+                    IKind::Input { fields, .. } => {
+                        if fields.len() > 1 {
+                            fields.remove(k);
+                        }
+                    }
+                    IKind::Enum { values } => {
+                        if values.len() > 1 {
+                            values.remove(k);
+                        }
+                    }
+                    _ => {}
+                }
+                if !removed_name.is_empty() {
+                    // an interface field leaves its implementors too (and the other way round is harmless)
+                    let is_if = matches!(c.types[&n].kind, IKind::Interface { .. });
+                    if !is_if {
+                        let needed = c.implements_of(&n).iter().any(|i| m_has_field(&c, i, &removed_name));
+                        if needed {
+                            continue;
+                        }
+                    }
+                }
+                if c == cur {
+                    continue;
+                }
+                budget -= 1;
+                if let Some(p) = still(&c) {
+                    cur = c;
+                    cur_p = p;
+                    progress = true;
+                }
+            }
+        }
+    }
+    // strip texts / args / defaults in one go if possible
+    let mut c = cur.clone();
+    for t in c.types.values_mut() {
+        t.desc = None;
+        match &mut t.kind {
+            IKind::Object { fields, .. } | IKind::Interface { fields, .. } => {
+                for f in fields {
+                    f.desc = None;
+                    f.dep = None;
+                    f.args.clear();
+                }
+            }
+            IKind::Input { fields, .. } => {
+                for f in fields {
+                    f.desc = None;
+                    f.dep = None;
+                    f.default = None;
+                }
+            }
+            IKind::Enum { values } => {
+                for v in values {
+                    v.desc = None;
+                    v.dep = None;
+                }
+            }
+            _ => {}
+        }
+    }
+    if let Some(p) = still(&c) {
+        cur = c;
+        cur_p = p;
+    }
+    (cur, cur_p)
+}
+
+fn m_has_field(m: &IModel, ty: &str, f: &str) -> bool {
+    m.fields_of(ty).iter().any(|x| x.name == f)
+}
+
+// ---------------------------------------------------------------------- replay
+
+fn replay(run: &Run, path: &std::path::Path) {
+    let text = match std::fs::read_to_string(path) {
+        Ok(t) => t,
+        Err(e) => {
+            run.inconclusive(&format!("cannot read replay {}: {e}", path.display()));
+            return;
+        }
+    };
+    let j: J = match serde_json::from_str(&text) {
+        Ok(j) => j,
+        Err(e) => {
+            run.inconclusive(&format!("replay is not JSON: {e}"));
+            return;
+        }
+    };
+    let case = if j["case"].is_object() { &j["case"] } else { &j };
+    let mut st = Stats::default();
+    let problems = match case["flavour"].as_str() {
+        Some("dynamic") => {
+            let m = match IModel::from_json(&case["model"]) {
+                Ok(m) => m,
+                Err(e) => {
+                    run.inconclusive(&format!("replay model unreadable: {e}"));
+                    return;
+                }
+            };
+            match check_dynamic(&m, case["hostile_text"].as_bool().unwrap_or(false), &mut st) {
+                Ok(p) => p,
+                Err(e) => {
+                    run.inconclusive(&format!("replay schema does not build: {e}"));
+                    return;
+                }
+            }
+        }
+        Some("static-V1") => {
+            let vm = vis::hand_model();
+            let schema = vis::schema();
+            let f = Flags::from_bits(case["flags_bits"].as_u64().unwrap_or(0) as u8);
+            check_v1_context(&schema, &vm, f, &mut st).0
+        }
+        Some("witness") => witness::run_one(case["witness"].as_str().unwrap_or(""), &mut st).unwrap_or_default(),
+        other => {
+            run.inconclusive(&format!("replay flavour {other:?} unknown"));
+            return;
+        }
+    };
+    run.evals(st.requests);
+    if problems.is_empty() {
+        println!("REPLAY: no problem observed");
+    } else {
+        for p in &problems {
+            println!("REPLAY: [{}] {}", p.class, p.text);
+        }
+        run.violation("C18-replay", &format!("replayed case still fails: {}", texts(&problems).join(" || ")), case.clone());
+    }
+}
+
 pub fn main() {
-    println!("INCONCLUSIVE property=C18 reason=check not built yet");
-    std::process::exit(2);
+    let mut run = Run::from_args(
+        "exploration",
+        "static family V1 (hand-written derive schema; visibility predicates read request data) introspected under all 16 \
+         flag combinations; random dynamic type systems (descriptions, deprecations with/without reason on fields, \
+         arguments, input fields and enum values, default values, specifiedByURL, oneOf, interface inheritance DAGs, \
+         unions, mutation/subscription roots, every type reachable through a randomly chosen route) built through \
+         async_graphql::dynamic. Each subject is asked the standard introspection query, the legacy query, and \
+         __type(name:) for every listed type through the real Schema::execute; the JSON is rebuilt into a client \
+         schema and compared with the source model and the model read from schema.sdl(). Non-trivial = schema shows at \
+         least 6 distinct constructs; distinct by hash of the source model (static: per context)",
+    );
+    run.assume("R2 (harness/r2) reads SDL documents and GraphQL value literals per the October-2021 grammar");
+    run.assume("the hand model of V1 (intro/src/vis.rs) transcribes the derive attributes of the same file; its naming rule (hidden-able names contain 'zz', nothing else does) is checked at start-up");
+    run.assume("which built-in scalars, introspection types and directives are listed, and list orders, are the server's choice and not compared");
+    run.assume("a type that is visible but reachable only through hidden elements may be listed or not");
+    run.assume("`interfaces: null` on an INTERFACE entry is read as the empty list (clients do the same); it is an error only when the source declares `implements`");
+    run.assume("SDL leg only on schemas whose descriptions and reasons are plain text (escaping of SDL text is property C17)");
+    if let Some(p) = run.replay.clone() {
+        replay(&run, &p);
+        run.finish_code_exit();
+    }
+    run.set_floors(run.scale(1500, 40_000), run.scale(300, 10_000));
+    run.set_max_samples(6);
+    for c in [
+        "static_contexts_checked",
+        "dynamic_schemas_checked",
+        "type_references_resolved",
+        "types_compared_with_source",
+        "type_by_name_entries_compared",
+        "legacy_queries_compared",
+        "sdl_models_compared",
+        "hidden_names_scanned_for",
+    ] {
+        run.require_counter(c);
+    }
+    static_part(&run);
+    witness::run_all(&run);
+    dynamic_part(&run);
+    run.finish_code_exit();
 }
